@@ -608,7 +608,10 @@ class ModulePrinter(ExpressionPrinter):
 
         if node.guard is not None:
             self.printer.keyword('if')
-            self.visit(node.guard)
+            if isinstance(node.guard, ast.NamedExpr):
+                self.visit(node.guard)
+            else:
+                self._expression(node.guard)
 
         self.printer.delimiter(':')
         self._suite(node.body)
